@@ -8,7 +8,7 @@ HERE = os.path.dirname(os.path.abspath(__file__))
 
 def cfg(name, comment, **kw):
     d = dict(UnitSeq="U3", GroupNames='{"g1"}', MaxGroups=1, MaxRecs=3, MaxCount=3, MCountMin=1, EpVals="EpNone",
-             ChainCanonical="FALSE", TenantMode='"forall"', ExportMode='"none"', SampleMod=1, SampleRes=0)
+             ChainCanonical="FALSE", TenantMode='"forall"', ExportMode='"none"', SampleMod=1, SampleRes=0, NearMod=1)
     d.update(kw)
     if d["TenantMode"] == '"forall"':
         inv = "ForAllManifests"
@@ -24,25 +24,31 @@ def cfg(name, comment, **kw):
 
 
 # quick
-cfg("MC_q_res.cfg", "quick: 1 group, 3 unit classes, <=3 records/side, counts 1..3, no endpoints; every manifest per chain state",
-    ExportMode='"focus"', SampleMod=997)
+cfg("MC_q_res.cfg", "quick: 1 group, 3 unit classes, <=3 records/side, counts 1..3, no endpoints; every manifest per chain "
+    "state; chain side up to renaming of the classes", ChainCanonical="TRUE", ExportMode='"focus"', SampleMod=997, NearMod=3)
 cfg("MC_q_ep.cfg", "quick: 1 group, 2 classes, <=2 records/side, counts 1..2, endpoints (http,other) in {0,1}^2 per record",
-    UnitSeq="U2", MaxRecs=2, MaxCount=2, EpVals="EpBin", ExportMode='"focus"', SampleMod=499)
-cfg("MC_q_grp.cfg", "quick: <=2 groups over 2 names, 2 classes, <=1 record/group, counts 1..2, endpoints {00,10,01}",
-    UnitSeq="U2", GroupNames='{"g1","g2"}', MaxGroups=2, MaxRecs=1, MaxCount=2, EpVals="EpGrp",
+    UnitSeq="U2", MaxRecs=2, MaxCount=2, EpVals="EpBin", ExportMode='"focus"', SampleMod=499, NearMod=2)
+cfg("MC_q_grp.cfg", "quick: <=2 groups over 2 names, 2 classes, <=1 record/group, counts 1..2, endpoints {00,10}",
+    UnitSeq="U2", GroupNames='{"g1","g2"}', MaxGroups=2, MaxRecs=1, MaxCount=2, EpVals="EpOne",
     ExportMode='"focus"', SampleMod=199)
 cfg("MC_q_zero.cfg", "quick: manifest services with count 0 allowed (chain side 1..2), 2 classes, <=3 records",
     UnitSeq="U2", MaxRecs=3, MaxCount=2, MCountMin=0, ExportMode='"focus"', SampleMod=499)
-cfg("MC_q_act.cfg", "quick: tenant as actions (states are pairs), 2 classes, <=2 records, counts 1..2, endpoints {0,1}^2",
-    UnitSeq="U2", MaxRecs=2, MaxCount=2, EpVals="EpBin", TenantMode='"actions"')
+cfg("MC_q_act.cfg", "quick: tenant as actions (states are pairs), 2 classes, <=2 records, counts 1..2, endpoints {00,10,01}",
+    UnitSeq="U2", MaxRecs=2, MaxCount=2, EpVals="EpGrp", TenantMode='"actions"')
 # thorough
+cfg("MC_t_act.cfg", "thorough: tenant as actions (states are pairs), 2 classes, <=2 records, counts 1..2, endpoints {0,1}^2",
+    UnitSeq="U2", MaxRecs=2, MaxCount=2, EpVals="EpBin", TenantMode='"actions"')
+cfg("MC_t_res.cfg", "thorough: 3 classes x <=3 records x counts 1..3, unreduced", ExportMode='"focus"', SampleMod=997)
+cfg("MC_t_grp.cfg", "thorough: <=2 groups over 2 names, 2 classes, <=1 record/group, counts 1..2, endpoints {00,10,01}",
+    UnitSeq="U2", GroupNames='{"g1","g2"}', MaxGroups=2, MaxRecs=1, MaxCount=2, EpVals="EpGrp",
+    ExportMode='"focus"', SampleMod=199)
 cfg("MC_t_u3r3c4.cfg", "thorough: 3 classes x <=3 records x counts 1..4", MaxCount=4, ExportMode='"focus"', SampleMod=9973)
 cfg("MC_t_u2r4c4.cfg", "thorough: 2 classes x <=4 records x counts 1..4", UnitSeq="U2", MaxRecs=4, MaxCount=4)
 cfg("MC_t_u3r4c2.cfg", "thorough: 3 classes x <=4 records x counts 1..2", MaxRecs=4, MaxCount=2)
 cfg("MC_t_u3r4c4.cfg", "thorough: 3 classes x <=4 records x counts 1..4; chain side up to renaming of the classes "
     "(canonical first-use order), manifest side everything", MaxRecs=4, MaxCount=4, ChainCanonical="TRUE")
 cfg("MC_t_ep.cfg", "thorough: 2 classes x <=3 records x counts 1..2 x endpoints {0,1}^2",
-    UnitSeq="U2", MaxRecs=3, MaxCount=2, EpVals="EpBin", ExportMode='"focus"', SampleMod=9973)
+    UnitSeq="U2", MaxRecs=3, MaxCount=2, EpVals="EpBin", ExportMode='"focus"', SampleMod=99991, NearMod=97)
 cfg("MC_t_grp2.cfg", "thorough: <=2 groups over 2 names, 2 classes, <=2 records/group, counts 1..2",
     UnitSeq="U2", GroupNames='{"g1","g2"}', MaxGroups=2, MaxRecs=2, MaxCount=2, ExportMode='"focus"', SampleMod=9973)
 cfg("MC_t_grp3.cfg", "thorough: <=3 groups over 3 names, 2 classes, <=1 record/group, counts 1..2, endpoints {00,10,01}",
